@@ -300,10 +300,17 @@ pub fn run(ctx: &mut Ctx) {
     let kdev: usize = if ctx.thorough() { 4 } else { 3 };
     ctx.bound("lenient_spellings", json!(format!("every combination of at most {kdev} deviations (unpadded number, leading '+', extra blanks at any token boundary, letter case of names / meridians, month name for month number, trimmed fraction zeros, dropped trailing time fields) at all positions")));
     let mut combos: Vec<(Ty, &'static str, TV)> = Vec::new();
+    // well-known pictures (as written and in lower case) are explored like the per-type lists
+    let wk: Vec<&'static str> = crate::c19::WELL_KNOWN.iter().flat_map(|p| [p.to_string(), crate::c19::case_variant(p, 2)]).map(|s| &*Box::leak(s.into_boxed_str())).collect();
     for ty in refmodel::picture::ALL_TYPES {
         let vals = values_for(ty, seed, true);
-        for pic in pictures_for(ty) {
-            for v in &vals {
+        let mut pics = pictures_for(ty);
+        if ty.has_date() || ty == Ty::Time { pics.extend(wk.iter().copied()); }
+        for pic in pics {
+            // keep only pictures that determine a value of this type
+            let toks = match tokenize(pic.as_bytes()) { Some(t) => t, None => continue };
+            if denoted(ty, &toks, &vals[0].fields()).is_none() { continue; }
+            for v in vals.iter().step_by(if pictures_for(ty).contains(&pic) { 1 } else { 4 }) {
                 combos.push((ty, pic, *v));
             }
         }
